@@ -80,15 +80,23 @@ def gen_history(d, qcap, flags, lines=True, holds=True, long_history=True, line_
     step = 0
     nops = d.rng(4, 60) if long_history else d.rng(2, 14)
     marathon = long_history and d.unlikely(1, 40)
+    outer = d
     if marathon:
-        nops = d.rng(300, 520)        # several hundred accepted events on one parser object: internal ring counters wrap
+        # several hundred accepted events on one parser object (internal ring counters wrap).  The case's byte string is far too
+        # short to spell out so many operations, so they are drawn from a byte stream expanded deterministically (SHA-256 in counter
+        # mode) from four drawn bytes: still a pure function of the case bytes; failures are replayed from the saved spec anyway.
+        import hashlib
+        from .draw import Draw
+        nops = d.rng(520, 800)
+        seed = d.bytes(4)
+        d = Draw(b"".join(hashlib.sha256(seed + k.to_bytes(4, "little")).digest() for k in range(400)))
     def target():
         # mostly the event commands; now and then a command that lines use too (the one a hold belongs to included)
         if lcs and d.unlikely(1, 6):
             return nev + d.below(len(lcs))
         return d.below(nev)
     for _ in range(nops):
-        step += d.pick([0, 0, 0, 1, 1, 2, 3, 5, 9, 20, 60, 150]) if not marathon else d.pick([0, 0, 1, 3, 9, 20, 30])
+        step += d.pick([0, 0, 0, 1, 1, 2, 3, 5, 9, 20, 60, 150]) if not marathon else d.pick([0, 3, 9, 20, 30, 40])
         k = d.weighted([(8, "trig"), (2, "full"), (2, "buf"), (1, "proc"), (2, "burst"), (1, "dis")])
         if k == "trig":
             actions.append([S.AT_STEP, step, S.WA_TRIG, target(), d.pick([0, 1, 0, 1, 2, 3]), None])
@@ -109,6 +117,7 @@ def gen_history(d, qcap, flags, lines=True, holds=True, long_history=True, line_
             actions.append([S.AT_STEP, step, S.WA_ISBUFFERED, d.below(nev), d.pick([-1, 1, 3]), None])
         else:
             actions.append([S.AT_STEP, step, S.WA_GETPROCESSED, 1, 0, None])
+    d = outer
     inp = b""
     if lcs and d.chance(2, 3):
         for _ in range(d.rng(1, 3)):
